@@ -487,6 +487,7 @@ def main(argv=None):
             "undecided": [{"name": o["name"], "reason": o.get("reason", "")[:300]} for o in undecided][:40],
             "solver_time_s": round(solver_time, 3),
             "vacuity_canaries_checked": n_canaries,
+            "discharged_only_with_solver_quantifier_instantiation": sorted({strip_path(o["name"]) for o in proved if "native quantifier" in (o.get("reason") or "")})[:60],
             "cvc5_cross_check_of_discharged_VCs": dict(cross),
             "max_obligation_time_s": max([o.get("time", 0) or 0 for o in obligations] + [0]),
             "checker_cmd": f"./check {prop} --tier {tier}",
